@@ -2,44 +2,134 @@
    ONLY theorem statements; each is closed by [exact] of a lemma of C07/Proofs*.v. *)
 From Coq Require Import List NArith ZArith Bool Permutation Sorted.
 Import ListNotations.
-From Verif.C07 Require Import Model Proofs ProofsDense.
+From Verif.C07 Require Import Model Proofs ProofsDense ProofsLib ProofsLen ProofsOps ProofsSet ProofsHist ProofsCount.
 Local Open Scope N_scope.
 
-(* 1. goja's _defineOwnProperty decision tree equals ValidateAndApplyPropertyDescriptor for EVERY extensible flag,
-      every existing property (absent, bare value, valueProperty without stale fields) and every partial
-      descriptor that does not convert the kind of the property; and it leaves no stale fields.  The kind
-      conversions are carved out because the current tree gets them wrong (next theorem). *)
-Theorem define_refines_spec_partial : forall ext ex d,
+(* 1. goja's _defineOwnProperty decision tree (as repaired by 7dd46dd/8a03683) equals
+      ValidateAndApplyPropertyDescriptor for EVERY extensible flag, every existing property (absent, bare value,
+      valueProperty without stale fields) and every well-formed partial descriptor — kind conversions included. *)
+Theorem define_refines_spec : forall ext ex d,
+  desc_wf d = true -> oclean ex = true ->
+  option_map absE (goja_define ext ex d) = spec_define ext (option_map absE ex) d.
+Proof. exact ProofsDefine.define_refines_spec. Qed.
+
+(* ... and leaves no stale fields unless it converts the kind of the property; the configurable conversions still
+   do (open findings C07-N1/N2/N3) *)
+Theorem define_clean_partial : forall ext ex d,
   desc_wf d = true -> oclean ex = true -> no_kind_change ex d = true ->
-  option_map absE (goja_define ext ex d) = spec_define ext (option_map absE ex) d /\
   oclean (goja_define ext ex d) = true.
-Proof. exact ProofsDefine.define_refines_spec_partial. Qed.
+Proof. exact ProofsDefine.define_clean_partial. Qed.
 
-Theorem define_kindchange_refuted :
-  (exists ex d, oclean ex = true /\ desc_wf d = true /\
-     option_map absE (goja_define true ex d) <> spec_define true (option_map absE ex) d) /\
-  (exists ex d, oclean ex = true /\ desc_wf d = true /\ oclean (goja_define true ex d) = false).
-Proof. exact ProofsDefine.define_kindchange_refuted. Qed.
+Theorem define_stale_refuted :
+  exists ex d, oclean ex = true /\ desc_wf d = true /\ no_kind_change ex d = false /\
+               oclean (goja_define true ex d) = false.
+Proof. exact ProofsDefine.define_stale_refuted. Qed.
 
-(* 2. each storage refines S for reads and delete, for every state and every key *)
-Theorem sparse_refines : forall s k,
+(* 2. Each storage refines S, operation by operation, for EVERY state satisfying the storage invariant and every
+      argument, through every storage transition ([expand] in both directions happens inside set/define), and the
+      invariant is preserved — hence, by induction, along every history (theorem 2g).
+      Invariants: InvSp = items strictly sorted, below length, no stale valueProperty fields, propValueCount >= number
+      of valueProperties; InvDn = the same for the enumeration of the slots, and len(values) <= length. *)
+
+(* 2a. reads *)
+Theorem sparse_reads_refine : forall s k,
   i_getown (IS s) k = s_getown (absS s) k /\
   i_has (IS s) k = s_has (absS s) k /\
-  (k < MAXIDX -> InvS s -> i_get (IS s) k = s_get (absS s) k) /\
-  (k < MAXIDX -> absS (fst (sp_deleteIdx s k)) = fst (s_delete (absS s) k) /\
-                 snd (sp_deleteIdx s k) = snd (s_delete (absS s) k)).
+  (k < MAXIDX -> InvS s -> i_get (IS s) k = s_get (absS s) k).
 Proof.
-  intros s k. exact (conj (Proofs.sparse_getown s k) (conj (Proofs.sparse_has s k)
-                    (conj (Proofs.sparse_get s k) (Proofs.sparse_delete s k)))).
+  intros s k. exact (conj (Proofs.sparse_getown s k) (conj (Proofs.sparse_has s k) (Proofs.sparse_get s k))).
 Qed.
 
-Theorem dense_refines : forall d k,
+Theorem dense_reads_refine : forall d k,
   i_getown (ID d) k = s_getown (absD d) k /\
   i_has (ID d) k = s_has (absD d) k /\
   (k < MAXIDX -> InvD d -> i_get (ID d) k = s_get (absD d) k).
 Proof.
   intros d k. exact (conj (ProofsDense.dense_getown d k) (conj (ProofsDense.dense_has d k) (ProofsDense.dense_get d k))).
 Qed.
+
+(* 2b. length assignment = Set(O, "length", l) (ArraySetLength): both storages, after fix a4a2aa5 *)
+Theorem sparse_setlength_refines : forall s l, InvSp s -> l <= 4294967295 ->
+  s_setlen (absS s) l = (absS (fst (sp_setLength s l)), berr (snd (sp_setLength s l))) /\
+  InvSp (fst (sp_setLength s l)).
+Proof. exact ProofsLen.sparse_setlength_refines. Qed.
+
+Theorem dense_setlength_refines : forall d l, InvDn d -> l <= 4294967295 ->
+  s_setlen (absD d) l = (absD (fst (d_setLength d l)), berr (snd (d_setLength d l))) /\
+  InvDn (fst (d_setLength d l)).
+Proof. exact ProofsLen.dense_setlength_refines. Qed.
+
+(* 2c. delete *)
+Theorem sparse_delete_refines : forall s k, InvSp s -> k < MAXIDX ->
+  s_delete (absS s) k = (absS (fst (sp_deleteIdx s k)), snd (sp_deleteIdx s k)) /\
+  InvSp (fst (sp_deleteIdx s k)).
+Proof. exact ProofsLen.sparse_delete_refines. Qed.
+
+Theorem dense_delete_refines : forall d k, InvDn d -> k < MAXIDX ->
+  s_delete (absD d) k = (absD (fst (d_deleteIdx d k)), snd (d_deleteIdx d k)) /\
+  InvDn (fst (d_deleteIdx d k)).
+Proof. exact ProofsLen.dense_delete_refines. Qed.
+
+(* 2d. indexed write: existing elements, holes with the prototype consulted, growth, both storage switches *)
+Theorem sparse_set_refines : forall s k v, InvSp s -> k < MAXIDX ->
+  s_set (absS s) k v = (absA (fst (sp_setOwnIdx s k v)), snd (sp_setOwnIdx s k v)) /\
+  InvA (fst (sp_setOwnIdx s k v)).
+Proof. exact ProofsSet.sparse_set_refines. Qed.
+
+Theorem dense_set_refines : forall d k v, InvDn d -> k < MAXIDX ->
+  s_set (absD d) k v = (absA (fst (d_setOwnIdx d k v)), snd (d_setOwnIdx d k v)) /\
+  InvA (fst (d_setOwnIdx d k v)).
+Proof. exact ProofsSet.dense_set_refines. Qed.
+
+(* 2e. index [[DefineOwnProperty]]: the result and the abstract state equal S's for EVERY well-formed descriptor
+      (kind conversions included); the invariant is preserved outside the regions of the open findings: a kind
+      conversion leaves stale fields (C07-N1..N3), and a define that switches the storage does not count a new
+      valueProperty (C07-N6, see pvc_undercount_refuted) *)
+Theorem sparse_define_refines : forall s k dsc, InvSp s -> k < MAXIDX -> desc_wf dsc = true ->
+  s_define (absS s) k dsc = (absA (fst (sp_defineIdx s k dsc)), snd (sp_defineIdx s k dsc)) /\
+  (no_kind_change (alookup (sa_items s) k) dsc = true ->
+   (forall p d, goja_define (b_ext (sa_base s)) (alookup (sa_items s) k) dsc = Some p ->
+                fst (sp_defineIdx s k dsc) = ID d -> is_vp p = false) ->
+   InvA (fst (sp_defineIdx s k dsc))).
+Proof. exact ProofsOps.sparse_define_refines. Qed.
+
+Theorem dense_define_refines : forall d k dsc, InvDn d -> k < MAXIDX -> desc_wf dsc = true ->
+  s_define (absD d) k dsc = (absA (fst (d_defineIdx d k dsc)), snd (d_defineIdx d k dsc)) /\
+  (no_kind_change (dnth (da_values d) k) dsc = true ->
+   (forall p s, goja_define (b_ext (da_base d)) (dnth (da_values d) k) dsc = Some p ->
+                fst (d_defineIdx d k dsc) = IS s -> is_vp p = false) ->
+   InvA (fst (d_defineIdx d k dsc))).
+Proof. exact ProofsOps.dense_define_refines. Qed.
+
+(* 2g. all histories: the combined object (either storage, switching at will inside set/define) returns exactly
+      S's results and denotes exactly S's array after EVERY history of indexed writes, length assignments, deletes
+      and defines whose define steps stay outside the two open-finding regions; the invariant holds throughout.
+      An array literal starts in the invariant. *)
+Theorem history_refines : forall ops a, InvA a -> hist_ok a ops ->
+  s_run (absA a) ops = (absA (fst (i_run a ops)), snd (i_run a ops)) /\ InvA (fst (i_run a ops)).
+Proof. exact ProofsHist.history_refines. Qed.
+
+Theorem init_inv : forall vs, (forall x, In (Some x) vs -> exists v, x = IPlain v) ->
+  InvA (ID (mkDA vs (nlen vs) (count_present vs) 0 true (mkB true [] []))).
+Proof. exact ProofsHist.init_inv. Qed.
+
+(* 2h. the bookkeeping counters (objCount = number of present slots, propValueCount = number of valueProperties) are
+      exact for the operations that maintain them correctly after fix d2f8653: write / define / delete on an existing
+      slot; propValueCount also under truncation.  objCount under truncation: counters_truncate_refuted (C07-N5). *)
+Theorem dense_delete_counters : forall d k, ExactD d -> ExactD (fst (d_deleteIdx d k)).
+Proof. exact ProofsCount.dense_delete_counters. Qed.
+
+Theorem dense_set_counters : forall d k v, ExactD d -> k < nlen (da_values d) -> nlen (da_values d) <= da_length d ->
+  match fst (d_setOwnIdx d k v) with ID d' => ExactD d' | IS _ => False end.
+Proof. exact ProofsCount.dense_set_counters. Qed.
+
+Theorem dense_define_counters : forall d k dsc, ExactD d -> k < nlen (da_values d) -> nlen (da_values d) <= da_length d ->
+  match fst (d_defineIdx d k dsc) with ID d' => ExactD d' | IS _ => False end.
+Proof. exact ProofsCount.dense_define_counters. Qed.
+
+Theorem dense_setlength_pvc : forall d l, InvDn d -> da_pvc d = count_vp (da_values d) ->
+  da_pvc (fst (d_setLength d l)) = count_vp (da_values (fst (d_setLength d l))).
+Proof. exact ProofsCount.dense_setlength_pvc. Qed.
 
 (* 3. switching the storage strategy, in either direction, never changes the abstract array *)
 Theorem transition_invisible :
@@ -59,21 +149,12 @@ Theorem setlength_nonconfigurable_tail : forall r n, desc_sorted r ->
                    (forall k e', In (k, e') r -> p < k -> el_conf e' = true).
 Proof. exact Proofs.del_down_spec. Qed.
 
-(* 5. the recorded defects of the storages, each exhibited by evaluation on an explicit state *)
-Theorem sparse_setlength_refuted :   (* F4 *)
-  absS (fst (sp_setLength f4_state 10)) <> fst (s_array_set_length (absS f4_state) 10).
-Proof. exact Proofs.sparse_setlength_refuted. Qed.
-
-Theorem counters_refuted :           (* F5 *)
-  counters_ok f5_state = true /\
-  match fst (d_defineIdx f5_state 0 (mkD (Some 5) (Some true) None None (Some true) (Some true))) with
-  | ID d => counters_ok d = false | _ => False end.
-Proof. exact Proofs.counters_refuted. Qed.
-
-Theorem counters_truncate_refuted : counters_ok (fst (d_setLength f5_state 2)) = false.
+(* 5. the open defects of the storages, each exhibited by evaluation on an explicit state *)
+Theorem counters_truncate_refuted :  (* N5 *)
+  counters_ok f5_state = true /\ counters_ok (fst (d_setLength f5_state 2)) = false.
 Proof. exact Proofs.counters_truncate_refuted. Qed.
 
-Theorem export_refuted : d_export f3_state <> s_export (absD f3_state).   (* F3 *)
+Theorem export_refuted : d_guard f3_state = true /\ d_export f3_state <> s_export (absD f3_state).
 Proof. exact Proofs.export_refuted. Qed.
 
 Theorem pvc_undercount_refuted :     (* N6 *)
@@ -97,14 +178,27 @@ Theorem check_sort_array_sound : forall cmp i o, check_sort_array cmp i o = true
      StronglySorted (fun a b => (cmp a b <= 0)%Z) (defined_of o) /\ Stable cmp (defined_of i) (defined_of o)).
 Proof. exact Proofs.check_sort_array_sound. Qed.
 
-Print Assumptions define_refines_spec_partial.
-Print Assumptions define_kindchange_refuted.
-Print Assumptions sparse_refines.
-Print Assumptions dense_refines.
+Print Assumptions define_refines_spec.
+Print Assumptions define_clean_partial.
+Print Assumptions define_stale_refuted.
+Print Assumptions sparse_reads_refine.
+Print Assumptions dense_reads_refine.
+Print Assumptions sparse_setlength_refines.
+Print Assumptions dense_setlength_refines.
+Print Assumptions sparse_delete_refines.
+Print Assumptions dense_delete_refines.
+Print Assumptions sparse_set_refines.
+Print Assumptions dense_set_refines.
+Print Assumptions sparse_define_refines.
+Print Assumptions dense_define_refines.
+Print Assumptions history_refines.
+Print Assumptions init_inv.
+Print Assumptions dense_delete_counters.
+Print Assumptions dense_set_counters.
+Print Assumptions dense_define_counters.
+Print Assumptions dense_setlength_pvc.
 Print Assumptions transition_invisible.
 Print Assumptions setlength_nonconfigurable_tail.
-Print Assumptions sparse_setlength_refuted.
-Print Assumptions counters_refuted.
 Print Assumptions counters_truncate_refuted.
 Print Assumptions export_refuted.
 Print Assumptions pvc_undercount_refuted.
